@@ -2120,6 +2120,14 @@ class Mailbox:
             for msg_key in to_delete:
                 self.sequences[seq].discard(msg_key)
         self.num_recent = len(self.sequences["Recent"])
+
+        # Keep the .mh_sequences up to date. Otherwise the removed message
+        # keys stay listed there (eg: in `Deleted`) and a message delivered
+        # later that reuses one of those keys inherits the old flags.
+        #
+        async with self.mh_sequences_lock, self.mailbox.lock_folder():
+            self.set_sequences_in_folder(self.sequences)
+
         await self.commit_to_db()
         self.optional_resync = False
 
